@@ -43,7 +43,9 @@ def main():
             subprocess.check_call("git -C /repo worktree add -q --detach %s HEAD" % wt, shell=True)
             meta = {"property": pid, "mutant": os.path.basename(m), "repo_head": subprocess.check_output("git -C /repo rev-parse --short HEAD", shell=True, text=True).strip(), "steps": []}
             try:
-                rc, o = sh("git apply %s" % m, wt); meta["steps"].append({"cmd": "git apply mutant", "rc": rc})
+                rc, o = sh("git apply %s || patch -p1 --no-backup-if-mismatch -s -i %s" % (m, m), wt); meta["steps"].append({"cmd": "git apply mutant (fallback: patch -p1)", "rc": rc})
+                if rc != 0:
+                    raise RuntimeError("mutant does not apply: " + o[-300:])
                 rc, o = sh("cargo test --workspace --no-fail-fast --offline", wt)
                 p, f = counts(o)
                 meta["steps"].append({"cmd": "cargo test --workspace --no-fail-fast --offline (mutant applied)", "rc": rc, "passed": p, "failed": f})
@@ -53,7 +55,7 @@ def main():
                 rc1, o1 = sh(dc, wt)
                 p1, f1 = counts(o1)
                 meta["steps"].append({"cmd": dc + " (mutant applied)", "rc": rc1, "passed": p1, "failed": f1, "tail": o1[-600:]})
-                sh("git apply -R %s" % m, wt)
+                sh("git apply -R %s || patch -R -p1 --no-backup-if-mismatch -s -i %s" % (m, m), wt)
                 rc2, o2 = sh(dc, wt)
                 p2, f2 = counts(o2)
                 meta["steps"].append({"cmd": dc + " (mutant reverted)", "rc": rc2, "passed": p2, "failed": f2})
